@@ -502,6 +502,28 @@ func (g *gx) rw(e ast.Expr) ast.Expr {
 			if cl, ok := x.X.(*ast.CompositeLit); ok {
 				return &ast.UnaryExpr{OpPos: x.OpPos, Op: x.Op, X: g.rw(cl)}
 			}
+			// &b of a local byte slice that is assigned once and never written through: the pointer's target is b's value
+			if id, ok := x.X.(*ast.Ident); ok {
+				if typ, ok := g.t.env[id.Name]; ok && typ.k == "bytes" {
+					writes := 0
+					ast.Inspect(g.d.Body, func(n ast.Node) bool {
+						if as, ok := n.(*ast.AssignStmt); ok {
+							for _, l := range as.Lhs {
+								if isIdent(l, id.Name) {
+									writes++
+								}
+								if ix, ok := l.(*ast.IndexExpr); ok && isIdent(ix.X, id.Name) {
+									writes += 2
+								}
+							}
+						}
+						return true
+					})
+					if writes <= 1 {
+						return g.leaf(x, "(Some "+cname(id.Name)+")", gOpt(tBytes))
+					}
+				}
+			}
 			g.fail(x, "address of something that is not a composite literal")
 		}
 		return &ast.UnaryExpr{OpPos: x.OpPos, Op: x.Op, X: g.rw(x.X)}
@@ -2679,7 +2701,7 @@ func (s *gsec) function(key string) string {
 	var outPar []int
 	for i, n := range g.info.pnames {
 		if set[n] {
-			if !isSliceTy(g.info.params[i]) {
+			if !isSliceTy(g.info.params[i]) && !isIterTy(g.info.params[i]) { // a *BytesIterator parameter is returned like a slice parameter
 				panic(genError{fmt.Sprintf("%s: the parameter %s is assigned", key, n)})
 			}
 			outPar = append(outPar, i)
